@@ -249,6 +249,10 @@ func H_C14_LeaseSet2() {
 			kl += dlen
 		}
 		k := lease_set2.EncryptionKey{KeyType: 4, KeyLen: uint16(kl), KeyData: nd.Bytes(kl)}
+		if i == 1 {
+			// the second key has a type the library has no table entry for (accepted with any length)
+			k.KeyType = []uint16{8, 0x00FF, 0xFF01}[nd.IntRange(0, 2)]
+		}
 		if i == 0 && declMismatch {
 			k.KeyLen++
 		}
